@@ -149,6 +149,7 @@ def run(pid, t, replay=None):
     bad, consumed = validate_traces("LedgerTrace.tla", cfg, chunks, wd, par=8)
     log("TV: %d events in %d chunks, %d divergences (all properties)" % (consumed, len(chunks), len(bad)))
     skips = sum(1 for ln in open(tpath) if '"ev":"Skip"' in ln)
+    aborted = sum(1 for ln in open(tpath) if '"ev":"Abort"' in ln)
 
     known = load_known()
     mine = [b for b in bad if b["prop"] == pid]
@@ -176,6 +177,8 @@ def run(pid, t, replay=None):
         if unmatched:
             path = write_replay(pid, dict(property=pid, scenario=scns[k], divergences=unmatched, seed=seed(), tier=t))
             violations.append((unmatched[0], path))
+    if aborted and not violations:
+        raise ToolError("%d scenarios aborted in the runner itself (see Abort events in %s)" % (aborted, tpath))
     stats = scenario_stats(scns)
     coverage = dict(
         states=dist, transitions=gen_n, traces_validated_against_impl=len(scns) - len(stalled),
